@@ -284,6 +284,10 @@ def broadcast_desc(r, model: str, i: int, tag: str) -> Dict[str, Any]:
     d["temp_tenths"] = r.choice(edge16) if r.random() < 0.15 else r.randrange(65536)
     d["target"] = r.randrange(256)
     d["remote_id"] = "".join(r.choice(RID_CHARS) for _ in range(8))
+    if r.random() < 0.04:
+        # the ids of real remotes, also as a device with another firmware spells them
+        rid = r.choice(["ELEC7022", "ELEC7001", "ZM079055", "DLK65863"])
+        d["remote_id"] = r.choice([rid, rid.lower(), rid.capitalize(), rid[:4] + rid[4:].lower()])
     if d["state"] == "OFF" and r.random() < 0.3:
         d["state_code"] = r.choice([0, 0, 2, 3, 0x10, 0xFF])  # anything but 01 is "off"
     return d
